@@ -73,6 +73,7 @@ def stripe_check(ctx, data):
 
 class C07(c01.C01):
     prop = PROP
+    judge_write_open = False      # "the written image can always be opened" is C01's; C07 judges link semantics
 
     def before_edit(self, ctx, op):
         m = ctx.model
